@@ -445,7 +445,16 @@ Section KeyedB.
     - exact I.
   Qed.
 
-  Lemma kspec_bimorph : Bimorph MA MB MO kspec.
+  (* Any map-valued K whose output is well-formed and whose VISIBLE value at every key is
+     [obind] of the visible inputs is a strict bimorphism (used for the shipped loop, which
+     needs f strict to have that shape, and for the repaired loop, which has it for every f) *)
+  Section Gen.
+  Variable kspec : list (N * VA) -> list (N * VB) -> list (N * VO).
+  Hypothesis kspec_W : forall a b, W MA a -> W MB b -> W MO (kspec a b).
+  Hypothesis aget_kspec : forall a b k, W MA a -> W MB b ->
+    ago k (kspec a b) = obind (aga k a) (agb k b).
+
+  Lemma gen_bimorph : Bimorph MA MB MO kspec.
   Proof.
     pose proof (@map_laws VA LA HA) as HMA. pose proof (@map_laws VB LB HB) as HMB. pose proof (@map_laws VO LO HO) as HMO.
     split.
@@ -503,7 +512,7 @@ Section KeyedB.
       rewrite <- !aget_kspec by assumption. apply (aget_merge HO); assumption.
   Qed.
 
-  Lemma kspec_strict : Strict MA MB MO kspec.
+  Lemma gen_strict : Strict MA MB MO kspec.
   Proof.
     split; intros a b Wa Wb B.
     - apply (map_bot_iff (kspec_W Wa Wb)). intros k. rewrite aget_kspec by assumption.
@@ -511,6 +520,13 @@ Section KeyedB.
     - apply (map_bot_iff (kspec_W Wa Wb)). intros k. rewrite aget_kspec by assumption.
       rewrite (proj1 (map_bot_iff Wb) B k). apply obind_None_r.
   Qed.
+  End Gen.
+
+  Lemma kspec_bimorph : Bimorph MA MB MO kspec.
+  Proof. apply gen_bimorph; [exact kspec_W|intros; apply aget_kspec; assumption]. Qed.
+
+  Lemma kspec_strict : Strict MA MB MO kspec.
+  Proof. apply gen_strict; [exact kspec_W|intros; apply aget_kspec; assumption]. Qed.
 
   (* the transcribed loop itself *)
   Theorem keyed_bimorph : Bimorph MA MB MO (keyed f) /\ Strict MA MB MO (keyed f).
@@ -519,6 +535,111 @@ Section KeyedB.
     assert (Q : forall a b, W MA a -> keyed f a b = kspec a b).
     { intros a b Wa. apply keyed_eq. exact (@mw_nodup VA LA a Wa). }
     destruct kspec_bimorph as [K1 K2 K3 K4]. destruct kspec_strict as [S1 S2].
+    split; split.
+    - intros a b Wa Wb. rewrite Q by assumption. auto.
+    - intros a a' b b' Wa Wa' Wb Wb'. rewrite !Q by assumption. auto.
+    - intros a da b Wa Wda Wb. rewrite !Q by (try assumption; apply (m_wf HMA); assumption). auto.
+    - intros a b db Wa Wb Wdb. rewrite !Q by assumption. auto.
+    - intros a b Wa Wb. rewrite Q by assumption. auto.
+    - intros a b Wa Wb. rewrite Q by assumption. auto.
+  Qed.
+
+  (* ------------------------------------------------------------ the repaired loop *)
+  Definition kfspec (a : list (N * VA)) (b : list (N * VB)) : list (N * VO) :=
+    flat_map (fun kv => match get (fst kv) b with
+                        | Some vb => if isbot LA (snd kv) || isbot LB vb then []
+                                     else [(fst kv, f (snd kv) vb)]
+                        | None => []
+                        end) a.
+
+  Lemma keyed_fixed_fold b : forall a out, NoDup (keys a) ->
+    (forall k, In k (keys a) -> ~ In k (keys out)) ->
+    fold_left (keyed_fixed_step LA LB f b) a out = out ++ kfspec a b.
+  Proof.
+    induction a as [|[k v] r IH]; intros out Hn Hd; cbn [fold_left kfspec flat_map].
+    - rewrite app_nil_r. reflexivity.
+    - inversion Hn as [|? ? Hnot Hn']; subst. unfold keyed_fixed_step at 2. cbn [fst snd].
+      assert (Hd' : forall k', In k' (keys r) -> ~ In k' (keys out)).
+      { intros k' Hk'. apply Hd. right. exact Hk'. }
+      destruct (get k b) as [vb|] eqn:Gb; [|cbn [app]; apply IH; assumption].
+      destruct (isbot LA v || isbot LB vb); [cbn [app]; apply IH; assumption|].
+      unfold map_put. cbn [fst snd].
+      assert (G : get k out = None) by (apply get_None, Hd; left; reflexivity).
+      rewrite G. rewrite IH; [rewrite <- app_assoc; reflexivity|exact Hn'|].
+      intros k' Hk'. rewrite keys_app, in_app_iff. cbn. intros [Hs|[Hs|[]]].
+      + apply (Hd k'); [right; exact Hk'|exact Hs].
+      + subst. contradiction.
+  Qed.
+
+  Lemma keyed_fixed_eq a b : NoDup (keys a) -> keyed_fixed LA LB f a b = kfspec a b.
+  Proof.
+    intros Hn. unfold keyed_fixed. rewrite keyed_fixed_fold; [reflexivity|exact Hn|]. intros k _ [].
+  Qed.
+
+  Lemma get_kfspec b k : forall a, NoDup (keys a) ->
+    get k (kfspec a b) =
+    match get k a, get k b with
+    | Some va, Some vb => if isbot LA va || isbot LB vb then None else Some (f va vb)
+    | _, _ => None
+    end.
+  Proof.
+    induction a as [|[k' v] r IH]; intros Hn; cbn [kfspec flat_map get fst snd]; [reflexivity|].
+    inversion Hn as [|? ? Hnot Hn']; subst. fold (kfspec r b). rewrite get_app.
+    assert (Gr : get k' r = None) by (apply get_None; exact Hnot).
+    destruct (N.eqb_spec k k') as [Q|Q].
+    - subst k'. destruct (get k b) as [vb|] eqn:Gb; cbn [get].
+      + destruct (isbot LA v || isbot LB vb); cbn [get].
+        * rewrite (IH Hn'), Gr. reflexivity.
+        * rewrite N.eqb_refl. reflexivity.
+      + rewrite (IH Hn'), Gr. reflexivity.
+    - destruct (get k' b) as [vb'|]; cbn [get]; [|apply IH, Hn'].
+      destruct (isbot LA v || isbot LB vb'); cbn [get]; [apply IH, Hn'|].
+      destruct (N.eqb_spec k k'); [contradiction|]. apply IH, Hn'.
+  Qed.
+
+  Lemma kfspec_NoDup b : forall a, NoDup (keys a) -> NoDup (keys (kfspec a b)).
+  Proof.
+    induction a as [|[k v] r IH]; intros Hn; cbn [kfspec flat_map fst snd]; [constructor|].
+    inversion Hn as [|? ? Hnot Hn']; subst. fold (kfspec r b). rewrite keys_app.
+    destruct (get k b) as [vb|]; cbn [keys map app fst]; [|apply IH, Hn'].
+    destruct (isbot LA v || isbot LB vb); cbn [keys map app fst]; [apply IH, Hn'|].
+    constructor; [|apply IH, Hn']. apply get_None. rewrite (get_kfspec b k r Hn').
+    assert (G : get k r = None) by (apply get_None; exact Hnot). rewrite G. reflexivity.
+  Qed.
+
+  Lemma kfspec_W a b : W MA a -> W MB b -> W MO (kfspec a b).
+  Proof.
+    intros Wa Wb. pose proof (@mw_nodup VA LA a Wa) as Na. apply mw_intro.
+    - apply kfspec_NoDup, Na.
+    - intros k v Hi. apply In_get in Hi; [|apply kfspec_NoDup, Na].
+      rewrite (get_kfspec b k a Na) in Hi.
+      destruct (get k a) as [va|] eqn:Ga; [|discriminate].
+      destruct (get k b) as [vb|] eqn:Gb; [|discriminate].
+      destruct (isbot LA va || isbot LB vb); [discriminate|]. inversion Hi; subst.
+      apply (bm_wf BM); [exact (@mw_val VA LA a k va Wa Ga)|exact (@mw_val VB LB b k vb Wb Gb)].
+  Qed.
+
+  (* no strictness of f needed: bottom inputs are skipped by the loop itself *)
+  Lemma aget_kfspec a b k : W MA a -> W MB b -> ago k (kfspec a b) = obind (aga k a) (agb k b).
+  Proof.
+    intros Wa Wb. pose proof (@mw_nodup VA LA a Wa) as Na.
+    unfold aget. rewrite (get_kfspec b k a Na).
+    destruct (get k a) as [va|] eqn:Ga; [|reflexivity].
+    destruct (get k b) as [vb|] eqn:Gb; [|destruct (isbot LA va); reflexivity].
+    destruct (isbot LA va), (isbot LB vb); reflexivity.
+  Qed.
+
+  Theorem keyed_fixed_bimorph :
+    Bimorph MA MB MO (keyed_fixed LA LB f) /\ Strict MA MB MO (keyed_fixed LA LB f).
+  Proof.
+    pose proof (@map_laws VA LA HA) as HMA. pose proof (@map_laws VB LB HB) as HMB.
+    assert (Q : forall a b, W MA a -> keyed_fixed LA LB f a b = kfspec a b).
+    { intros a b Wa. apply keyed_fixed_eq. exact (@mw_nodup VA LA a Wa). }
+    assert (KB : Bimorph MA MB MO kfspec).
+    { apply gen_bimorph; [exact kfspec_W|intros; apply aget_kfspec; assumption]. }
+    assert (KS : Strict MA MB MO kfspec).
+    { apply gen_strict; [exact kfspec_W|intros; apply aget_kfspec; assumption]. }
+    destruct KB as [K1 K2 K3 K4]. destruct KS as [S1 S2].
     split; split.
     - intros a b Wa Wb. rewrite Q by assumption. auto.
     - intros a a' b b' Wa Wa' Wb Wb'. rewrite !Q by assumption. auto.
@@ -563,7 +684,7 @@ Theorem holds_b_model s : shape_ok s = true ->
     C07_holds_b s (model_bobs s a da b db) = true.
 Proof.
   intros OK a da b db Wa Wda Wb Wdb. pose proof (shape_bimorph s OK) as BM.
-  unfold C07_holds_b, model_bobs. cbn [bo_eq_l bo_eq_r]. apply andb_true_iff. split.
+  unfold C07_holds_b, model_bobs, model_bobs_gen. cbn [bo_eq_l bo_eq_r]. apply andb_true_iff. split.
   - exact (bm_l BM Wa Wda Wb).
   - exact (bm_r BM Wa Wb Wdb).
 Qed.
@@ -587,3 +708,34 @@ Proof.
   exists [], [(0%N, [])], [(0%N, [1%N])]. repeat split.
   intros Q. vm_compute in Q. discriminate.
 Qed.
+
+(* ---------------------------------------------------------------- the repaired KeyedBimorphism *)
+Lemma types_ok_key_total s : types_ok s = true ->
+  key_total (ty_a s) = true /\ key_total (ty_b s) = true /\ key_total (ty_o s) = true.
+Proof.
+  induction s; cbn; intros OK; auto.
+  apply andb_true_iff in OK. destruct OK as [Ka Kb]. rewrite Ka, Kb. auto.
+Qed.
+
+(* with the repair, EVERY shape -- PairBimorphism under any number of KeyedBimorphisms
+   included -- distributes over merge *)
+Theorem shape_fixed_bimorph s : types_ok s = true ->
+  Bimorph (ops (ty_a s)) (ops (ty_b s)) (ops (ty_o s)) (bapply_fixed s).
+Proof.
+  induction s as [|ta tb|s IH]; cbn [types_ok]; intros OK.
+  - exact cart_bimorph.
+  - apply andb_true_iff in OK. destruct OK as [Ka Kb]. cbn [ty_a ty_b ty_o ops bapply_fixed].
+    apply pair_bimorph; apply laws; assumption.
+  - destruct (types_ok_key_total s OK) as [Ka [Kb Ko]].
+    cbn [ty_a ty_b ty_o ops bapply_fixed].
+    apply keyed_fixed_bimorph; auto using laws.
+Qed.
+
+(* the witness that refutes the shipped loop is handled by the repaired one *)
+Example keyed_fixed_on_witness :
+  let s := BKeyed (BPair TSet TSet) in
+  let a : val (ty_a s) := [] in let da : val (ty_a s) := [(0%N, [])] in
+  let b : val (ty_b s) := [(0%N, [1%N])] in
+  bapply_fixed s (m (ops (ty_a s)) a da) b = [] /\
+  m (ops (ty_o s)) (bapply_fixed s a b) (bapply_fixed s da b) = [].
+Proof. split; reflexivity. Qed.
